@@ -522,6 +522,7 @@ func runSite(mode string) sim.RigFunc {
 		put("static/tdir/index.html.gz", cached("gz", tpl, gz))
 		put("static/tdir/index.html.br", cached("br", tpl, br))
 		put("static/tdir/index.html.zst", cached("zs", tpl, zs))
+		os.Chtimes(filepath.Join(r.root, "static", "tdir"), fixed, fixed) // (directory listings show it: keep it reproducible)
 		r.static["/static/tdir/"] = tpl
 		r.siblings["/static/tdir/"] = []string{"gz", "br", "zst"}
 		// a directory whose name looks like a precompressed copy of a file that has none
@@ -529,6 +530,8 @@ func runSite(mode string) sim.RigFunc {
 			if len(r.siblings["/"+f]) == 0 {
 				os.MkdirAll(filepath.Join(r.root, f+".gz"), 0755)
 				os.MkdirAll(filepath.Join(r.root, f+".br"), 0755)
+				os.Chtimes(filepath.Join(r.root, f+".gz"), fixed, fixed)
+				os.Chtimes(filepath.Join(r.root, f+".br"), fixed, fixed)
 			}
 		}
 		// the site's own Casketfile lies inside the root, with precompressed copies next to it (a
